@@ -345,6 +345,7 @@ class Book:
         self.unresolved = []        # (function, text)
         self.where = {}
         self.stats = {}
+        self.last_fail = None
 
     def add(self, rule, fn, clause, ok, detail=None):
         k = (rule, fn, clause)
@@ -354,6 +355,7 @@ class Book:
             self.order.append(k)
         e[0] += 1
         if not ok:
+            self.last_fail = detail
             e[1] += 1
             if e[2] is None:
                 e[2] = detail
@@ -831,9 +833,10 @@ class Heap:
         under realloc by op_malloc); the heap it leaves is explored further, so the block is written to, reallocated and
         freed like a malloc'ed one (it takes part in :noleak).  That it is the SAME block malloc(n) would give is not
         demanded: a larger block is a correct answer."""
+        self.bk.last_fail = None
         r = self.op_malloc(S, n, via_realloc=True)
         self.bk.add(HR + ':null', 'realloc', 'realloc(NULL,n)-returns-NULL-or-a-block-for-n-bytes', r is not None,
-                    '%s: see the R-HEAP-HIST:block / :frame / :state instances of realloc' % S.text('realloc(NULL, %d)' % n))
+                    self.bk.last_fail or '%s could not be analysed' % S.text('realloc(NULL, %d)' % n))
         return r[0] if r else None
 
     def free_all(self, S):
